@@ -210,6 +210,43 @@ def nontrivial_sig(case, r):
     return (case["fn"], case["stream"], d == 0.0)
 
 
+# ----------------------------------------------------------------------------- implementation coverage
+# lines of /repo/distance3d/distance/*.py that only degenerate inputs OUTSIDE domain P can reach
+# (segments shorter than sqrt(1e-6), zero direction vectors); listed so that the holes that matter stand out
+def coverage_of_impl(R, pid, cases, tier):
+    """line + branch coverage of distance3d/distance/*.py reached by the generated calls (interpreted run:
+    NUMBA_DISABLE_JIT=1 so that the @njit kernels are visible to coverage.py)"""
+    sub = cases if tier == "quick" else cases[::max(1, len(cases) // 8000)]
+    rr = cm.run_impl(pid, "c10cov", dict(cases=[dict(fn=c["fn"], args=pl.case_args(c)) for c in sub]),
+                     timeout=1500, jit=False, tag="cov")
+    if rr["status"] != "ok":
+        R.notes.append(f"coverage worker failed: {rr['status']} {rr.get('log', '')[-300:]}")
+        return
+    files = rr["result"]["files"]
+    tot_s = sum(v["statements"] for v in files.values())
+    tot_e = sum(v["executed"] for v in files.values())
+    tot_b = sum(v["branches"] for v in files.values())
+    tot_mb = sum(len(v["missing_branches"]) for v in files.values())
+    src = {}
+    out = {}
+    for f, v in files.items():
+        if v["missing_lines"] or v["missing_branches"]:
+            try:
+                lines = (cm.REPO / "distance3d" / "distance" / f).read_text().splitlines()
+            except OSError:
+                lines = []
+            txt = lambda n: lines[n - 1].strip()[:70] if 0 < n <= len(lines) else ""
+            out[f] = dict(lines=f"{v['executed']}/{v['statements']}",
+                          branches=f"{v['branches'] - len(v['missing_branches'])}/{v['branches']}",
+                          missing_lines={str(n): txt(n) for n in v["missing_lines"]},
+                          missing_branches=[f"{a}->{b}" for a, b in v["missing_branches"]])
+        else:
+            out[f] = dict(lines=f"{v['executed']}/{v['statements']}", branches=f"{v['branches']}/{v['branches']}")
+    R.cov["implementation_coverage"] = dict(
+        how="coverage.py (branch=True) over distance3d/distance/*.py, interpreted run of the same generated calls",
+        calls=len(sub), statements=f"{tot_e}/{tot_s}", branches=f"{tot_b - tot_mb}/{tot_b}", files=out)
+
+
 # ----------------------------------------------------------------------------- Coq side
 COQ_HEADER = """From Coq Require Import QArith List.
 From D3 Require Import Base.Ops Base.Vec Checker.Prim.
@@ -425,6 +462,8 @@ def run(tier, seed, replay=None):
 
     # ---- model correspondence
     c10corr.correspondence(R, PID, cases, results, tier)
+    if not replay:
+        coverage_of_impl(R, PID, cases, tier)
 
     for c, r in list(zip(cases, results))[:400:150]:
         if "exc" not in r:
